@@ -8,11 +8,11 @@ TECH = "deterministic simulation with fault injection"
 
 CHECKS = {
     "C01": dict(engine="D1", cat="exploration", ref="DESIGN.md 4/C01",
-        text="Seeded search over preamble contents, record cuts, padding, noise placement, buffer sizes and read schedules; every run is compared field by field with an independent one-shot reference model and re-run under two more schedules. Evidence over the sampled runs, not a proof; directed biases (cuts inside length prefixes, pairs over 3+ records, exact-fill reads, tight buffers) aim the sample at the stated risks. A quarter of the preambles follow one or two attempts that the client aborted during Params on the same parser object.",
+        text="Seeded search over preamble contents, record cuts, padding, noise placement, buffer sizes and read schedules; every run is compared field by field with an independent one-shot reference model and re-run under two more schedules. Evidence over the sampled runs, not a proof; directed biases (cuts inside length prefixes, pairs over 3+ records, exact-fill reads, tight buffers) aim the sample at the stated risks. A quarter of the preambles follow one or two attempts that the client aborted during Params on the same parser object; at seeded moments the driver continues on a clone() of the parser or on an older copy refreshed with clone_from.",
         note="Trusted: the harness's own wire codec and M-preamble (written from the specification); std::String::from_utf8_lossy as the lossy-decoding reference. Assumes buffer >= longest pair + 13.",
         technique=TECH + ": caller-schedule simulator over request::Parser, seeded chunking/segmentation search vs. reference model"),
     "C02": dict(engine="D1+D2", cat="exploration", ref="DESIGN.md 4/C02",
-        text="Seeded search over stream contents, segmentation, noise and caller schedules (parse into caller buffers of any size or the internal buffer, consume, compress, drain output, select) behind a real request-parser hand-off; every delivered byte is checked against M-stream at its offset after every step, end-of-stream exactly at the terminator. The same extraction is also observed through the async Request (scenario async_delivery: the C09 connection scenario with caller buffers of 0..70000 bytes, buffered and vectored reads, Pending and short reads, reply flushes that return Pending).",
+        text="Seeded search over stream contents, segmentation, noise and caller schedules (parse into caller buffers of any size or the internal buffer, consume, compress, drain output, select, continue on a clone() or on an older copy refreshed with clone_from) behind a real request-parser hand-off; every delivered byte is checked against M-stream at its offset after every step, end-of-stream exactly at the terminator. The same extraction is also observed through the async Request (scenario async_delivery: the C09 connection scenario with caller buffers of 0..70000 bytes, buffered and vectored reads, Pending and short reads, reply flushes that return Pending).",
         note="Trusted: wire codec and M-stream. Caller respects documented preconditions.",
         technique=TECH + ": caller-schedule simulator over stream::Parser vs. reference model"),
     "C04": dict(engine="D1", cat="exploration", ref="DESIGN.md 4/C04",
@@ -48,11 +48,11 @@ CHECKS = {
         note="Trusted: executor strictness (a task is polled only after its waker fired), M-conn reply list. The closed-loop scenarios are valid under the closed-loop peer only (whole records, later ones withheld); the burst scenario evaluates the invariant at record boundaries only, because close() legitimately defers a reply while it waits for the rest of a record it is skipping.",
         technique=TECH + ": strict deterministic executor + closed-loop peer, suspension-point invariant and deadlock detection"),
     "C09": dict(engine="D2", cat="exploration", ref="DESIGN.md 4/C09",
-        text="Seeded search over handler call sequences on the async read interfaces (poll_read with buffers of 0..70000 bytes, poll_fill_buf+consume(k), set_stream, writeable()), transport read patterns and write-side readiness, with management records arriving mid-stream; bytes received per stream compared with M-stream (prefix; equality and sticky end-of-file once end-of-file was seen), is_writeable() sampled after every poll against the model's gating condition, output_stream()/set_stream() rejections probed under catch_unwind.",
+        text="Scenario hand_built_request builds the request by hand (sync request parser with or without look-ahead, into_stream_parser(), later stream optionally pre-selected, Request::new) and applies the same reader handlers and gating oracle. Seeded search over handler call sequences on the async read interfaces (poll_read with buffers of 0..70000 bytes, poll_fill_buf+consume(k), set_stream, writeable()), transport read patterns and write-side readiness, with management records arriving mid-stream; bytes received per stream compared with M-stream (prefix; equality and sticky end-of-file once end-of-file was seen), is_writeable() sampled after every poll against the model's gating condition, output_stream()/set_stream() rejections probed under catch_unwind.",
         note="Trusted: M-stream, M-conn. Compliant client.",
         technique=TECH + ": deterministic executor + simulated transport, handler-visible reads vs. reference model"),
     "C10": dict(engine="D2+D5", cat="exploration", ref="DESIGN.md 4/C10",
-        text="1..3 writers on separately woken sub-futures plus a reader sub-future, seeded poll order, write sizes incl. 0/65535/65536+, flushes, a transport cutting every vectored write anywhere (inside the header, at the seam, inside padding) or returning Pending: the transport log must decode into complete records which, in completion order, equal the successful writes (type, id, payload, padding rule), with management replies as whole records. Writes are sometimes re-polled with a longer buffer than the one that set the record up, and a third of the runs inject one transient write error after which the writers retry (documented: the lock is kept and the record continued). Extra: writers on different OS threads (strict poll-when-woken loops) plus a reader thread that drives the request's own reply flushing, over a transport that accepts 3 bytes per call and yields while the caller holds the output lock, with wake callbacks that wait (bounded) for the woken thread's next poll, under Miri's seeded scheduler, 24 / 2048 schedules, log decoded the same way.",
+        text="1..3 writers on separately woken sub-futures plus a reader sub-future, seeded poll order, write sizes incl. 0/65535/65536+, plain and gathered (poll_write_vectored, 2..4 slices) writes, flushes, a transport cutting every vectored write anywhere (inside the header, at the seam, inside padding) or returning Pending: the transport log must decode into complete records which, in completion order, equal the successful writes (type, id, payload, padding rule), with management replies as whole records. Writes are sometimes re-polled with a longer buffer than the one that set the record up, and a third of the runs inject one transient write error after which the writers retry (documented: the lock is kept and the record continued). Extra: writers on different OS threads (strict poll-when-woken loops) plus a reader thread that drives the request's own reply flushing, over a transport that accepts 3 bytes per call and yields while the caller holds the output lock, with wake callbacks that wait (bounded) for the woken thread's next poll, under Miri's seeded scheduler, 24 / 2048 schedules, log decoded the same way.",
         note="Trusted: wire decoder; completion order equals lock-release order in a single-threaded executor.",
         technique=TECH + ": deterministic executor with per-sub-future wakers + write-cutting transport, log decoded and compared"),
     "C11": dict(engine="D1+D2", cat="exploration", ref="DESIGN.md 4/C11",
@@ -68,7 +68,7 @@ CHECKS = {
         note="Trusted: executor strictness for the wake-up clauses; the thread scheduler is sequentially consistent and does not explore interleavings inside futures' AtomicWaker. A management reply being written by an idle connection may be cut by shutdown (statement is silent).",
         technique=TECH + ": deterministic executor with shutdown as a scheduled event + serialising thread scheduler (baton) over real threads"),
     "C13": dict(engine="D2+D5", cat="exploration", ref="DESIGN.md 4/C13",
-        text="Seeded histories over a runner (limit 1..4) and its clones: get_token futures created, polled with their own wakers, cancelled; tokens dropped unused, run to completion on simulated connections (client closes, one request, handler panic unwinding through Token::run); after every operation the live-token count is compared with the limit and, whenever a slot is free with requests queued, at least one queued request must have been woken since it last returned Pending; first-poll and woken-poll readiness are checked; requests are created by calling get_token() at creation time (created-but-unpolled futures are part of the histories) and connection tasks are advanced a few scheduler steps at a time between runner operations. The generator is biased towards two queued requests with two releases between polls (the coalescing shape). Thread clause: a program with a dropper thread and an acquirer polling queued get_token futures is interpreted by Miri under 32 (quick) / 2048 (thorough) seeded schedules with preemption anywhere; the scenario's wakers yield in their clone/wake/drop callbacks and a gate lets the other thread act (drop a token, queue a new request) at the instant a cancelled request releases its waker; afterwards no slot may be free next to an un-woken pending request.",
+        text="Seeded histories over a runner (limit 1..4) and its clones (Runner::clone, or an unrelated runner overwritten with clone_from): get_token futures created, polled with their own wakers, cancelled; tokens dropped unused, run to completion on simulated connections (client closes, one request, handler panic unwinding through Token::run); after every operation the live-token count is compared with the limit and, whenever a slot is free with requests queued, at least one queued request must have been woken since it last returned Pending; first-poll and woken-poll readiness are checked; requests are created by calling get_token() at creation time (created-but-unpolled futures are part of the histories) and connection tasks are advanced a few scheduler steps at a time between runner operations. The generator is biased towards two queued requests with two releases between polls (the coalescing shape). Thread clause: a program with a dropper thread and an acquirer polling queued get_token futures is interpreted by Miri under 32 (quick) / 2048 (thorough) seeded schedules with preemption anywhere; the scenario's wakers yield in their clone/wake/drop callbacks and a gate lets the other thread act (drop a token, queue a new request) at the instant a cancelled request releases its waker; afterwards no slot may be free next to an un-woken pending request.",
         note="Trusted: nothing inside async-lock/event-listener is modelled; they run as real code; in the history driver interleavings inside them are not explored (single thread, operation granularity), in the Miri extra they are (sampled by seed, sequentially consistent plus Miri's weak-memory emulation).",
         technique=TECH + ": seeded operation histories with per-future wakers against a counter model"),
 }
